@@ -79,6 +79,7 @@ def regen_models(spec):
 
 
 def ensure_makefile():
+    sh([sys.executable, os.path.join(HERE, 'mkcoqproject.py')], timeout=60)
     mk = os.path.join(COQ, 'Makefile')
     cp = os.path.join(COQ, '_CoqProject')
     # every Gen file named in _CoqProject must exist before coq_makefile / coqdep run
@@ -200,7 +201,7 @@ def props_obligations(spec):
     return res
 
 
-def build_harness():
+def build_harness(pid):
     hdir = os.path.join(ROOT, 'harness')
     lock = os.path.join(hdir, 'Cargo.lock')
     src_lock = os.path.join(REPO, 'Cargo.lock')
@@ -208,14 +209,16 @@ def build_harness():
         shutil.copy(src_lock, lock)
     env = dict(os.environ)
     env['CARGO_NET_OFFLINE'] = 'true'
-    rc, out, dt = sh(['cargo', 'build', '--offline'], cwd=hdir, timeout=1800, env=env)
+    cmd = ['cargo', 'build', '--offline', '--bin', pid.lower()]
+    rc, out, dt = sh(cmd, cwd=hdir, timeout=1800, env=env)
     if rc != 0 and 'Cargo.lock' in out and os.path.exists(src_lock):
         shutil.copy(src_lock, lock)
-        rc, out, dt = sh(['cargo', 'build', '--offline'], cwd=hdir, timeout=1800, env=env)
+        rc, out, dt = sh(cmd, cwd=hdir, timeout=1800, env=env)
     return rc, out, dt
 
 
-TVH = os.path.join(BUILD, 'target', 'debug', 'tvh')
+def harness_bin(pid):
+    return os.path.join(BUILD, 'target', 'debug', pid.lower())
 
 
 # ------------------------------------------------------------------ correspondence
@@ -237,7 +240,7 @@ def run_shard(path):
 def correspondence(spec, tier, seed, run_dir, extra_args=None):
     shutil.rmtree(run_dir, ignore_errors=True)
     os.makedirs(run_dir, exist_ok=True)
-    cmd = [TVH, spec['id'].lower(), 'gen', '--seed', str(seed), '--tier', tier, '--out', run_dir] + (extra_args or [])
+    cmd = [harness_bin(spec['id']), 'gen', '--seed', str(seed), '--tier', tier, '--out', run_dir] + (extra_args or [])
     rc, out, dt = sh(cmd, timeout=spec.get('harness_timeout', 1800))
     if rc != 0:
         return {'error': 'harness failed (rc=%d): %s' % (rc, out[-1500:])}
@@ -261,7 +264,7 @@ def correspondence(spec, tier, seed, run_dir, extra_args=None):
 def oracle_search(spec, seed, run_dir, budget):
     """property oracle on the implementation only"""
     out_file = os.path.join(run_dir, 'search.txt')
-    cmd = [TVH, spec['id'].lower(), 'search', '--seed', str(seed), '--budget', str(budget), '--out', out_file]
+    cmd = [harness_bin(spec['id']), 'search', '--seed', str(seed), '--budget', str(budget), '--out', out_file]
     rc, out, dt = sh(cmd, timeout=spec.get('search_timeout', 1800))
     fails = []
     tried = 0
@@ -350,7 +353,7 @@ def main():
         bad = audit_sources()
         for b in bad:
             broken.append({'kind': 'audit', 'detail': b})
-        rc_h, out_h, dt_h = build_harness()
+        rc_h, out_h, dt_h = build_harness(pid)
     if rc_h != 0:
         print('ERROR: harness does not build against %s:\n%s' % (REPO, out_h[-3000:]))
         return 2
@@ -437,7 +440,7 @@ def main():
     meta = corr['meta']
     wall = time.time() - t0
     ev = {
-        'property_id': pid, 'tier': tier, 'seed': seed, 'level': 'proof',
+        'property_id': pid, 'tier': tier, 'seed': seed, 'level': spec.get('level', 'proof'),
         'coverage': {
             'obligations': obligations, 'discharged': discharged,
             'checker_cmd': 'cd coq && coq_makefile -f _CoqProject -o Makefile && make -j16 ' + ' '.join(spec['proof_targets'] + ['Props/%s.vo' % pid]),
